@@ -366,8 +366,8 @@ class Lattice:
         obj.order = hdf5_loader.load(subpath + 'order_for_MPS')  # property setter!
         obj.pairs = hdf5_loader.load(subpath + 'pairs')
         if 'segment_first' in h5gr.attrs:
-            first = h5gr.attrs['segment_first']
-            last = h5gr.attrs['segment_last']
+            first = int(h5gr.attrs['segment_first'])
+            last = int(h5gr.attrs['segment_last'])
             obj.segment_first_last = first, last
         if 'position_disorder' in h5gr:
             obj.position_disorder = hdf5_loader.load(subpath + 'position_disorder')
